@@ -349,7 +349,7 @@ def declare_dag(fn, kw, name, salt=""):
     return dag(fn, **short)
 
 
-def build_tawazi(spec, plain=None, dag_kwargs=None, extra_env=None, wrap_site=None):
+def build_tawazi(spec, plain=None, dag_kwargs=None, extra_env=None, wrap_site=None, inner_dag=None):
     """exec the source with names bound to xn(...) probes; returns (dag object, env)."""
     from tawazi import Resource, dag, xn
 
@@ -372,7 +372,10 @@ def build_tawazi(spec, plain=None, dag_kwargs=None, extra_env=None, wrap_site=No
     env = {"c%d" % i: xns[nd["fn"]] for i, nd in enumerate(spec["nodes"])}
     env.update(named_constants())
     if spec.get("nest"):
-        env["__mkdag"] = lambda f: declare_dag(f, dict(max_concurrency=spec["nest"].get("mc", 1)), spec["nest"]["name"], salt=str(len(spec["nodes"])))
+        if inner_dag is not None:
+            env["__mkdag"] = lambda f: inner_dag  # the SAME inner DAG object nested in one more outer DAG
+        else:
+            env["__mkdag"] = lambda f: declare_dag(f, dict(max_concurrency=spec["nest"].get("mc", 1)), spec["nest"]["name"], salt=str(len(spec["nodes"])))
     if extra_env:
         env.update(extra_env)
     for i, w in (wrap_site or {}).items():
